@@ -153,7 +153,7 @@ package deflate
 //@   ensures[C01 C14 expand] histCodesOK(h)
 //@   loop 1 invariant 1 <= bits && bits <= 6 && offset == 4*((1<<uint64(bits)) - 2) && idx == 4*(bits-1) && (forall x :: 0 <= x && x < 265 + offset ==> litEntryOK(h.literalCodes[x])) && (forall x :: 0 <= x && x < 256 ==> h.literalCodes[x]>>24 <= 15) && (forall q :: 0 <= q && q < 21 ==> preEntryOK(origin[q])) && (forall d :: 0 <= d && d < 30 ==> preEntryOK(h.distanceCodes[d]))
 //@   loop 2 invariant 1 <= bits && bits <= 5 && 0 <= i && i <= 4 && offset == 4*((1<<uint64(bits)) - 2) + i*(1<<uint64(bits)) && idx == 4*(bits-1) + i && (forall x :: 0 <= x && x < 265 + offset ==> litEntryOK(h.literalCodes[x])) && (forall x :: 0 <= x && x < 256 ==> h.literalCodes[x]>>24 <= 15) && (forall q :: 0 <= q && q < 21 ==> preEntryOK(origin[q])) && (forall d :: 0 <= d && d < 30 ==> preEntryOK(h.distanceCodes[d]))
-//@   loop 3 invariant 1 <= bits && bits <= 5 && 0 <= i && i < 4 && 0 <= j && j <= 1<<uint64(bits) && offset == 4*((1<<uint64(bits)) - 2) + i*(1<<uint64(bits)) + j && idx == 4*(bits-1) + i + 1 && length <= 15 && code>>length == 0 && code < 16777216 && (forall x :: 0 <= x && x < 265 + offset ==> litEntryOK(h.literalCodes[x])) && (forall x :: 0 <= x && x < 256 ==> h.literalCodes[x]>>24 <= 15) && (forall q :: 0 <= q && q < 21 ==> preEntryOK(origin[q])) && (forall d :: 0 <= d && d < 30 ==> preEntryOK(h.distanceCodes[d])) && (smallCounts(h) ==> (forall y :: 265 <= y && y < curr - j && old(h.literalCodes[y]) != 0 ==> h.literalCodes[lenSymOfSlot(y)] != 0)) && (smallCounts(h) ==> val <= uint32(j)*65535 && (forall z :: curr - j <= z && z < curr && old(h.literalCodes[z]) != 0 ==> val != 0))
+//@   loop 3 invariant 1 <= bits && bits <= 5 && 0 <= i && i < 4 && 0 <= j && j <= 1<<uint64(bits) && offset == 4*((1<<uint64(bits)) - 2) + i*(1<<uint64(bits)) + j && idx == 4*(bits-1) + i + 1 && length <= 15 && code>>length == 0 && code < 16777216 && (forall x :: 0 <= x && x < 265 + offset ==> litEntryOK(h.literalCodes[x])) && (forall x :: 0 <= x && x < 256 ==> h.literalCodes[x]>>24 <= 15) && (forall q :: 0 <= q && q < 21 ==> preEntryOK(origin[q])) && (forall d :: 0 <= d && d < 30 ==> preEntryOK(h.distanceCodes[d]))
 //@   loop 4 invariant 1 <= i && i <= 14 && x == 2 + 2*int(i) && (forall d :: 0 <= d && d < 30 ==> (d < x ==> distEntryOK(h.distanceCodes[d], uint32(d))) && (d >= x ==> preEntryOK(h.distanceCodes[d]))) && (forall y :: 0 <= y && y < 513 ==> litEntryOK(h.literalCodes[y])) && (forall y :: 0 <= y && y < 256 ==> h.literalCodes[y]>>24 <= 15)
 
 //@ func (*dynCompressor).encodeBlock
